@@ -206,15 +206,10 @@ impl<K: Hash + Eq + Clone, V: Clone, E: OnEvictCallback + Clone, S: BuildHasher 
             HashMap::with_capacity_and_hasher(self.map.capacity(), self.map.hasher().clone()),
             self.on_evict.clone(),
         );
-        for entry in self.map.values() {
-            let (k, v) = unsafe {
-                let entry = entry.as_ref();
-                (
-                    entry.key.assume_init_ref().clone(),
-                    entry.val.assume_init_ref().clone(),
-                )
-            };
-            cloned.put(k, v);
+        // re-insert from least to most recently used so that the clone has the same
+        // recency order as the original (hash-map iteration order is arbitrary)
+        for (k, v) in self.iter_lru() {
+            cloned.put(k.clone(), v.clone());
         }
         cloned
     }
